@@ -169,6 +169,16 @@ fn lookups_are_recorded() {
         let rf = Cache::read(&c, "b", "x");
         std::mem::forget(rf);
     });
+    // reads that FAIL are dependencies too (the file may be created later): recorded before the source is asked
+    let (_u2, deps_missing) = records::record(r, || {
+        let rf = Cache::read(&c, "a", "y"); // the source has no such file
+        let missing = rf.is_err();
+        std::mem::forget(rf);
+        missing
+    });
+    assert!(_u2, "the harness source has no a.y");
+    assert!(count(&deps_missing) == 1 && has(&deps_missing, &dep_file("a", "y")), "C05 a read of a file that does not exist is recorded too (so that creating it later triggers the reload)");
+    std::mem::forget(deps_missing);
     assert!(has(&deps, &dep_asset("a", tid(0))), "C05/C14 a get_cached miss is recorded (the asset may appear later)");
     assert!(has(&deps, &dep_asset("b", tid(0))), "C05/C14 a get_cached hit is recorded");
     assert!(!has(&deps, &dep_asset("a", tid(2))), "C10 an opted-out type is never a dependency");
